@@ -58,6 +58,11 @@ func VerifC11() {
 	}
 	// every goroutine started for the execution can finish now (none stays blocked)
 	verif.Assert("no-goroutine-outlives-the-call", verif.Quiesce() == 0)
+	// the watcher goroutine and the execution share only what they synchronise on
+	for _, r := range verif.RaceReports() {
+		verif.Note("race: " + r)
+		verif.Assert("no-data-race", false)
+	}
 }
 
 // VerifC11Step: the timeout error is routed like any other action error.
